@@ -1,6 +1,6 @@
 (* C02 - an elided amount is inferred as the exact negation of the rest.
    Property theorems only; proofs in Proofs/XactProofs.v.  See Properties_C01.v for the names. *)
-From LedgerV Require Import Base.Prelude Base.Round Model.Amount Model.Xact
+From LedgerV Require Import Base Proofs.GainLossProofs.Prelude Base.Round Model.Amount Model.Xact
   Proofs.AmountProofs Proofs.XactProofs.
 Local Open Scope Q_scope.
 
@@ -74,3 +74,18 @@ Example null_fill_example :
      mkPost [67%Z] PReal (Some (mkAmt (-10) 2 false usd)) None None true false false;
      mkPost [67%Z] PReal (Some (mkAmt (-3) 0 false eur)) None None true true false]).
 Proof. vm_compute. reflexivity. Qed.
+
+(* the gain/loss of a lot sale ({price} differing from the @ cost) reaches the balance an elided amount is computed
+   from only through postings that must balance: exchange() hands on the same balance whether or not the (virtual)
+   postings are there *)
+Theorem virtual_postings_never_alter_the_balance : forall ord cp ps bal ps' bal',
+  exchange_posts ord cp ps bal = Ok (ps', bal') ->
+  exists ps'', exchange_posts ord cp (filter must_balance ps) bal = Ok (ps'', bal').
+Proof. exact exchange_posts_skips_nonbalancing. Qed.
+Print Assumptions virtual_postings_never_alter_the_balance.
+
+Theorem only_virtual_postings_leave_the_balance_alone : forall ord cp ps bal ps' bal',
+  Forall (fun p => must_balance p = false) ps ->
+  exchange_posts ord cp ps bal = Ok (ps', bal') -> bal' = bal.
+Proof. exact exchange_posts_nonbalancing_only. Qed.
+Print Assumptions only_virtual_postings_leave_the_balance_alone.
